@@ -54,8 +54,11 @@ theorem cocLoop_fold (mode : Int) : ∀ (k : Nat) (mn mx : Int) (e : Bool) (ws :
     simp only [cocLoop] at h
     split at h
     · simp at h
-    · rename_i n ws' hr
-      obtain ⟨hn1, hn2, hws'⟩ := roll_range_any 10 (by decide) (by decide) mode ws hws n ws' hr
+    · rename_i n0 ws' hr
+      obtain ⟨hn1', hn2', hws'⟩ := roll_range_any 10 (by decide) (by decide) mode ws hws n0 ws' hr
+      have hface : 1 ≤ cocFace mode n0 ∧ cocFace mode n0 ≤ 10 := by unfold cocFace; split <;> omega
+      generalize cocFace mode n0 = n at h hface
+      obtain ⟨hn1, hn2⟩ := hface
       split at h
       · rename_i h10
         split at h
